@@ -100,7 +100,8 @@ def inventory(tree):
             tuple_assigns[q] = ts
     from . import subset
     from .exprnorm import store_counts
-    return {"reflection": _reflection_count(tree), "tuple_assigns": tuple_assigns, "census": subset.census(tree),
+    from .lints import none_tested_params
+    return {"none_tested": none_tested_params(tree), "reflection": _reflection_count(tree), "tuple_assigns": tuple_assigns, "census": subset.census(tree),
             "store_counts": {q: store_counts(fn) for q, fn in _iter_funcs(tree)},
             "functions": sorted(set(funcs)), "globals": sorted(set(globs)), "literal_loops": loops, "private_params": params,
             "call_positional": call_pos, "call_keywords": {k: sorted(v) for k, v in call_kw.items()}, "literal_comps": comps, "dict_comps": dict_comps}
@@ -269,6 +270,11 @@ def _is_literal(e):
     if isinstance(e, ast.Call) and isinstance(e.func, ast.Name) and e.func.id == "slice" and not e.keywords \
             and 1 <= len(e.args) <= 3 and all(_is_literal(a) for a in e.args):
         return True
+    # an index expression spelled as a value: np.s_[:, :3, 3] / np.index_exp[..] with literal parts
+    if isinstance(e, ast.Subscript) and ast.unparse(e.value) in ("np.s_", "numpy.s_", "np.index_exp", "numpy.index_exp"):
+        parts = e.slice.elts if isinstance(e.slice, ast.Tuple) else [e.slice]
+        return all(isinstance(p_, ast.Slice) and all(x is None or _is_literal(x) for x in (p_.lower, p_.upper, p_.step)) or
+                   (not isinstance(p_, ast.Slice) and _is_literal(p_)) for p_ in parts)
     # limits of the NumPy number types and arithmetic on constants: np.iinfo(np.uint8).max + 1
     if isinstance(e, ast.Attribute) and e.attr in ("max", "min", "eps", "bits") and isinstance(e.value, ast.Call) and not e.value.keywords \
             and isinstance(e.value.func, ast.Attribute) and e.value.func.attr in ("iinfo", "finfo") and len(e.value.args) == 1 and _is_literal(e.value.args[0]):
@@ -443,6 +449,46 @@ def _bound_elsewhere(name, rel):
     return False
 
 
+def _overridden_elsewhere(name, clsname, rel):
+    """may another module of the package put a different value under `name` for objects of class `clsname`: a class there that
+    derives (by the names of its bases, transitively within that module) from `clsname` and binds the name, an attribute store
+    `obj.name = ..`, or a module that cannot be parsed (Cython)"""
+    import os
+    import re
+    from .core import REPO, SRC
+    if not _bound_elsewhere(name, rel):
+        return False
+    root = os.path.join(REPO, SRC)
+    pat_attr = re.compile(r"\." + re.escape(name) + r"\s*(=[^=]|\+=|-=)")
+    for r_, t in _PKG_TEXTS[root].items():
+        if r_ == rel or name not in t:
+            continue
+        if pat_attr.search(t):
+            return True
+        if not r_.endswith(".py"):
+            if re.search(r"^\s*" + re.escape(name) + r"\s*=", t, re.M):
+                return True
+            continue
+        try:
+            mod = ast.parse(t)
+        except SyntaxError:
+            return True
+        classes = {c.name: c for c in ast.walk(mod) if isinstance(c, ast.ClassDef)}
+
+        def derives(c, seen=()):
+            for b_ in c.bases:
+                bn = b_.id if isinstance(b_, ast.Name) else b_.attr if isinstance(b_, ast.Attribute) else None
+                if bn == clsname:
+                    return True
+                if bn in classes and bn not in seen and derives(classes[bn], seen + (bn,)):
+                    return True
+            return False
+        for c in classes.values():
+            if _scope_binding_counts(c.body).get(name) and derives(c):
+                return True
+    return False
+
+
 def _bound_in_other_class(tree, cnode, name):
     for c in ast.walk(tree):
         if isinstance(c, ast.ClassDef) and c is not cnode and _scope_binding_counts(c.body).get(name):
@@ -503,7 +549,7 @@ def propagate_new_constants(tree, ref_globals, rel=None):
             continue
         # `self._X` / `cls._X` is looked up in the class of the object: a subclass (here or in another module) that binds the
         # name as well would win
-        overridable = {k for k in cc if _bound_in_other_class(tree, cnode, k) or (rel is not None and _bound_elsewhere(k, rel))}
+        overridable = {k for k in cc if _bound_in_other_class(tree, cnode, k) or (rel is not None and _overridden_elsewhere(k, cnode.name, rel))}
         par = par or _parents(tree)
         for k in [k for k, v in cc.items() if _has_mutable(v)]:
             uses = [x for x in ast.walk(tree) if isinstance(x, ast.Attribute) and x.attr == k and isinstance(x.ctx, ast.Load)]
@@ -587,6 +633,10 @@ class _Getattr(ast.NodeTransformer):
                 return ast.Slice(lower=none(a[0]), upper=none(a[1]), step=none(a[2]))
             return c
 
+        # x[np.s_[a, b:c]] -> x[a, b:c] (np.s_ / np.index_exp hand back their index as it is)
+        if isinstance(n.slice, ast.Subscript) and ast.unparse(n.slice.value) in ("np.s_", "numpy.s_", "np.index_exp", "numpy.index_exp") \
+                and ast.unparse(n.value) not in ("np.s_", "numpy.s_", "np.index_exp", "numpy.index_exp"):
+            n.slice = n.slice.slice
         if isinstance(n.slice, ast.Tuple):
             n.slice.elts = [conv(x) for x in n.slice.elts]
         else:
@@ -1376,6 +1426,19 @@ def inline_new_helpers(tree, ref_funcs, rel=None):
                             ({x.id for b in body for x in ast.walk(b) if isinstance(x, ast.Name)} - set(stores))
                         if t_ not in mentioned:
                             fresh[body[-1].value.id] = t_
+                    # ... likewise `a, b = helper(..)` whose helper ends in `return v, w` (distinct locals of the helper)
+                    if target not in (None, "return") and len(target) == 1 and isinstance(target[0], ast.Tuple) and body \
+                            and isinstance(body[-1], ast.Return) and isinstance(body[-1].value, ast.Tuple) \
+                            and len(body[-1].value.elts) == len(target[0].elts) \
+                            and all(isinstance(x, ast.Name) for x in list(target[0].elts) + list(body[-1].value.elts)):
+                        rn_ = [x.id for x in body[-1].value.elts]
+                        tn_ = [x.id for x in target[0].elts]
+                        mentioned = {x.id for a_ in m.values() for x in ast.walk(a_) if isinstance(x, ast.Name)} | \
+                            ({x.id for b in body for x in ast.walk(b) if isinstance(x, ast.Name)} - set(stores))
+                        if len(set(rn_)) == len(rn_) and len(set(tn_)) == len(tn_) and all(r_ in stores and r_ not in m for r_ in rn_) \
+                                and not (set(tn_) & mentioned):
+                            for r_, t2_ in zip(rn_, tn_):
+                                fresh[r_] = t2_
                     body = [_rename(copy.deepcopy(b), fresh) for b in body]
                     new_stmts = list(pre)
                     ok = True
@@ -1385,7 +1448,10 @@ def inline_new_helpers(tree, ref_funcs, rel=None):
                             if target == "return":
                                 new_stmts.append(ast.Return(value=val))
                             elif target is not None:
-                                if not (len(target) == 1 and isinstance(target[0], ast.Name) and isinstance(val, ast.Name) and val.id == target[0].id):
+                                same_tuple = len(target) == 1 and isinstance(target[0], ast.Tuple) and isinstance(val, ast.Tuple) \
+                                    and [getattr(x, "id", None) for x in target[0].elts] == [getattr(x, "id", 0) for x in val.elts]
+                                if not (len(target) == 1 and isinstance(target[0], ast.Name) and isinstance(val, ast.Name) and val.id == target[0].id) \
+                                        and not same_tuple:
                                     new_stmts.append(ast.Assign(targets=copy.deepcopy(target), value=val))
                             else:
                                 new_stmts.append(ast.Expr(value=val))
@@ -1920,6 +1986,16 @@ def split_new_tuple_assignments(tree, known):
                         and len(st.targets[0].elts) in keep_arity:
                     out.append(st)
                     continue
+                # `a, b, c = map(f, (x, y, z))`: the calls in order (f a plain name / dotted name: evaluated once either way)
+                if isinstance(st, ast.Assign) and len(st.targets) == 1 and isinstance(st.targets[0], (ast.Tuple, ast.List)) \
+                        and isinstance(st.value, ast.Call) and isinstance(st.value.func, ast.Name) and st.value.func.id == "map" \
+                        and len(st.value.args) == 2 and not st.value.keywords and isinstance(st.value.args[1], (ast.Tuple, ast.List)) \
+                        and len(st.value.args[1].elts) == len(st.targets[0].elts) and (isinstance(st.value.args[0], ast.Name) or _dotted_name(st.value.args[0])) \
+                        and not any(isinstance(x, ast.Starred) for x in st.value.args[1].elts) and ast.unparse(st.targets[0]) not in keep:
+                    fn_ = st.value.args[0]
+                    st.value = ast.copy_location(ast.List(elts=[ast.Call(func=copy.deepcopy(fn_), args=[x], keywords=[]) for x in st.value.args[1].elts],
+                                                          ctx=ast.Load()), st.value)
+                    ast.fix_missing_locations(st)
                 # `a, b, c = [f(v) for v in (x, y, z)]`: the comprehension over a literal table is its list of elements
                 if isinstance(st, ast.Assign) and len(st.targets) == 1 and isinstance(st.targets[0], (ast.Tuple, ast.List)) \
                         and isinstance(st.value, (ast.ListComp, ast.GeneratorExp)) and len(st.value.generators) == 1 \
@@ -2095,7 +2171,11 @@ def expand_new_literal_comprehensions(tree, known):
                     only_starred = not g.ifs and all(
                         any(isinstance(p_, ast.Starred) and p_.value is x for c_ in ast.walk(fn) if isinstance(c_, ast.Call) for p_ in c_.args)
                         for x in ast.walk(fn) if isinstance(x, ast.Name) and x.id == name and isinstance(x.ctx, ast.Load))
-                    if subs is not None and not uses_self and isinstance(g.iter, (ast.Tuple, ast.List)) and only_starred:
+                    # ... and so is a list that is read exactly once, as a whole (`functools.reduce(operator.or_, masks)`, `max(xs)`)
+                    loads_ = [x for x in ast.walk(fn) if isinstance(x, ast.Name) and x.id == name and isinstance(x.ctx, ast.Load)]
+                    stores_ = [x for x in ast.walk(fn) if isinstance(x, ast.Name) and x.id == name and isinstance(x.ctx, (ast.Store, ast.Del))]
+                    read_once = not g.ifs and len(loads_) == 1 and len(stores_) == 1 and not _within_loop(fn, loads_[0])
+                    if subs is not None and not uses_self and isinstance(g.iter, (ast.Tuple, ast.List)) and (only_starred or read_once):
                         lit_ = ast.Assign(targets=[ast.Name(id=name, ctx=ast.Store())], value=ast.List(elts=[_subst(st.value.elt, m) for m in subs], ctx=ast.Load()))
                         ast.copy_location(lit_, st)
                         ast.fix_missing_locations(lit_)
@@ -2230,6 +2310,20 @@ class _DictComp(ast.NodeTransformer):
             subs = _literal_iter(ast.For(target=g.target, iter=g.iter, body=[ast.Pass()], orelse=[]))
             if subs is not None and truthy:
                 return ast.copy_location(ast.BoolOp(op=ast.Or() if n.func.id == "any" else ast.And(), values=[_subst(elt, m) for m in subs]), n)
+        # max(f(e) for e in (a, b)) -> max(f(a), f(b)) (min likewise; at least two items): the same values in the same order.  The items
+        # may contain calls when the element expression reads the loop variable exactly once, unconditionally (each item is then
+        # evaluated once, in order, as in the display)
+        if isinstance(n.func, ast.Name) and n.func.id in ("max", "min") and len(n.args) == 1 and not n.keywords \
+                and isinstance(n.args[0], (ast.GeneratorExp, ast.ListComp)) and len(n.args[0].generators) == 1 \
+                and not n.args[0].generators[0].ifs and not n.args[0].generators[0].is_async \
+                and isinstance(n.args[0].generators[0].iter, (ast.Tuple, ast.List)) and len(n.args[0].generators[0].iter.elts) >= 2 \
+                and isinstance(n.args[0].generators[0].target, ast.Name) \
+                and not any(isinstance(x, ast.Starred) for x in n.args[0].generators[0].iter.elts):
+            g = n.args[0].generators[0]
+            cnt, uncond = _unconditional_reads(n.args[0].elt, g.target.id)
+            plain = all(_effect_free_argument(x) for x in g.iter.elts)
+            if cnt >= 1 and (plain or (cnt == 1 and uncond)):
+                return ast.copy_location(ast.Call(func=n.func, args=[_subst(n.args[0].elt, {g.target.id: x}) for x in g.iter.elts], keywords=[]), n)
         # functools.reduce(operator.and_, (f(i, j) for i, j in ((0, 1), (0, 2), (1, 2)))) -> f(0, 1) & f(0, 2) & f(1, 2)
         # (left fold, no initial value, at least one item: exactly what reduce computes)
         fn = ast.unparse(n.func)
